@@ -660,7 +660,7 @@ def rdsystem_from_dict(d, parent_units_system=UnitsSystem(), base_path=None):
     else :
         raise ValueError("missing system network.")
 
-    if "space" in d :
+    if "space" in d and d["space"] is not None :
         space = d["space"]
     
         if isdict(space) :
@@ -671,6 +671,9 @@ def rdsystem_from_dict(d, parent_units_system=UnitsSystem(), base_path=None):
         else :
             raise ValueError("space type is unexpected.")
         da["space"] = space        
+    else :
+        # documented default: a default grid whose units system is inherited from the system
+        da["space"] = RDGridSpace(units_system=da["units_system"])
         
     if "state" in d :
         state = d["state"]
